@@ -113,6 +113,7 @@ def tlc(cwd, module, cfg=None, workers=1, timeout=1800, xmx="3g", extra=()):
 
 RE_DONE = re.compile(r'<<"TRACE_DONE", (\d+), (\d+)>>')
 RE_FAIL = re.compile(r'<<"FAIL", "([^"]+)", (\d+)>>')
+RE_FINDING = re.compile(r'<<"FINDING", "([^"]+)", (\d+)>>')
 RE_STATES = re.compile(r"(\d+) states generated, (\d+) distinct states found")
 
 
@@ -122,7 +123,7 @@ def validate_trace(ctx, name, tracefile, module="Trace", timeout=3000):
     shutil.copy(tracefile, os.path.join(d, "trace.ndjson"))
     n = sum(1 for _ in open(tracefile))
     if n == 0:
-        return {"n": 0, "rejected": [], "fails": {}, "states": 0, "distinct": 0}
+        return {"n": 0, "rejected": [], "fails": {}, "states": 0, "distinct": 0, "markers": {}}
     rc, out = tlc(d, module, timeout=timeout)
     m = RE_DONE.search(out)
     if not m or int(m.group(1)) != n:
@@ -132,13 +133,18 @@ def validate_trace(ctx, name, tracefile, module="Trace", timeout=3000):
         fails.setdefault(int(i), [])
         if c not in fails[int(i)]:
             fails[int(i)].append(c)
+    markers = {}
+    for c, i in RE_FINDING.findall(out):
+        markers.setdefault(int(i), [])
+        if c not in markers[int(i)]:
+            markers[int(i)].append(c)
     rejected = sorted(fails.keys())
     if len(rejected) != int(m.group(2)):
         raise ToolError("trace validation of %s: %s rejected events but %d FAIL indices" % (tracefile, m.group(2), len(rejected)))
     sm = RE_STATES.search(out)
     st, di = (int(sm.group(1)), int(sm.group(2))) if sm else (0, 0)
     shutil.rmtree(d, ignore_errors=True)
-    return {"n": n, "rejected": rejected, "fails": fails, "states": st, "distinct": di}
+    return {"n": n, "rejected": rejected, "fails": fails, "states": st, "distinct": di, "markers": markers}
 
 
 def run_model(ctx, module, cfg=None, workers=NCPU, timeout=1500, extra=(), expect_ok=True, xmx="8g"):
@@ -261,6 +267,7 @@ def reexec_batch(ctx, events, module, tag, cf=None):
     ctx.states += res["states"]
     if res["n"] != len(events):
         raise ToolError("reexec produced %d events for %d inputs" % (res["n"], len(events)))
+    ctx.last_markers = [res["markers"].get(i + 1, []) for i in range(len(events))]
     return [((i + 1) not in res["fails"], res["fails"].get(i + 1, [])) for i in range(len(events))]
 
 
@@ -280,13 +287,20 @@ def triage(ctx, rejected, module):
     known = load_known()
     for mod, evs in by_mod.items():
         rep = reexec_batch(ctx, evs, mod, "repro-" + mod)
+        rep_markers = ctx.last_markers
         open_evs = []
-        for ev, (ok, cl) in zip(evs, rep):
+        for ev, (ok, cl), mk in zip(evs, rep, rep_markers):
             if ok:
                 raise ToolError("rejection of event %s did not reproduce" % event_key(ev))
             if any(c in TOOL_CLAUSES for c in cl):
                 raise ToolError("tool-level rejection %s on replay of %s" % (cl, event_key(ev)))
             kf = match_known(ctx.prop, ev, cl)
+            if not kf:
+                # signature findings: the specification itself evaluated the finding's signature on the
+                # reproduced event and printed its marker
+                for f in known.get("findings", []):
+                    if ctx.prop in f.get("properties", []) and f.get("marker") in mk and cl == [ctx.prop]:
+                        kf = f
             if kf:
                 note_known(ctx, kf)
             else:
